@@ -3,7 +3,7 @@
 
 class Obligation:
     def __init__(self, name, fn, shards, desc, bounds, assumptions=(), functions=(), shims=(),
-                 budget_s=(120, 900), per_path_s=(20, 60), best_verdict="PROVED_IN_BOUNDS", stop_on_refute=True):
+                 budget_s=(120, 900), per_path_s=(20, 60), best_verdict="PROVED_IN_BOUNDS", stop_on_refute=True, traced=True):
         self.name = name
         self.fn = fn
         self._shards = shards  # callable(tier) -> list of params dicts, or a list
@@ -16,6 +16,7 @@ class Obligation:
         self.per_path_s = per_path_s
         self.best_verdict = best_verdict
         self.stop_on_refute = stop_on_refute
+        self.traced = traced  # False: the harness only makes finite choices (no symbolic values): run it without the tracer
 
     def shards(self, tier):
         s = self._shards(tier) if callable(self._shards) else self._shards
